@@ -98,7 +98,13 @@ def extract_mutators():
         "plan_mutator: `except StopIteration` block is not the transcribed one (pmExhausted)",
     )
     _expect(
-        _src(t_throw.handlers[1].body) == ["plan_stack.pop()", "if plan_stack:\n    exception = e\n    continue\nelse:\n    raise"],
+        _src(t_throw.handlers[1].body)
+        == [
+            "failed_gen = plan_stack.pop()",
+            "tail_cache.pop(id(failed_gen), None)",
+            "tail_result_cache.pop(id(failed_gen), None)",
+            "if plan_stack:\n    exception = e\n    continue\nelse:\n    raise",
+        ],
         "plan_mutator: `except Exception` of the throw branch is not the transcribed one",
     )
     _expect(
